@@ -232,6 +232,19 @@ def evaluate(X, name, v, spec_octets=None, spec_tags=None):
             r["oct"] = {"ok": True, "o": octets}
         except Exception as e:
             fail("oct", e)
+    # a PDU object that was encoded before and then given this case's parameters must encode like a fresh one
+    if is_pdu(klass) and octets is not None:
+        prev = LAST_PDU.get(name)
+        if prev is not None:
+            try:
+                for el in klass.sequenceElements:
+                    setattr(prev, el.name, getattr(obj, el.name, None))
+                a3 = A.APDU()
+                prev.encode(a3)
+                r["reuse"] = {"ok": True, "o": list(bytes(a3.pduData))}
+            except Exception as e:
+                fail("reuse", e)
+        LAST_PDU[name] = obj
     # decode
     src_octets = spec_octets if spec_octets is not None else octets
     src_tags = spec_tags if spec_tags is not None else (r["enc"]["tags"] if tl is not None else None)
@@ -289,6 +302,7 @@ def evaluate(X, name, v, spec_octets=None, spec_tags=None):
 
 
 HANGS = [0]
+LAST_PDU = {}       # class name -> the PDU object of the previous case (already encoded once)
 
 
 def guarded_eval(X, name, v, spec_octets=None, spec_tags=None):
@@ -315,6 +329,8 @@ def failure(r, exp_tags=None, exp_octets=None):
         return ("OctetsEqualSpec", "oct", r["oct"]["exc"])
     if exp_octets is not None and r["oct"]["o"] != exp_octets:
         return ("OctetsEqualSpec", "octets", "differs")
+    if "reuse" in r and (not r["reuse"]["ok"] or r["reuse"]["o"] != r["oct"]["o"]):
+        return ("OctetsEqualSpec", "reuse", "a re-used PDU object encodes differently from a fresh one with the same parameters")
     if not r["dec"]["ok"]:
         return ("RoundTrip", "dec", r["dec"]["exc"])
     if r["dec"]["v"] != r["v"]:
